@@ -44,6 +44,14 @@ class C12(Prop):
              "cfg": {"raising": False, "form": "pdtable"}, "fault": "cell"},
             {"rows": [["k:", None], ["**a"], ["all"], ["c", "d"], ["m"], ["1", "2"]], "cfg": {"raising": True, "form": "pdtable"}, "fault": "cell"},
             {"rows": [[{"i": 3}, "x"], ["k:", {"f": "0x1.8p+0"}]] + base, "cfg": {"raising": True, "form": "pdtable"}, "fault": "cell"},
+        ] + [
+            # a datetime cell mistyped into a timestamp that does not fit the column (zone offset / out of range / finer
+            # resolution), before an undamaged table; every form and tracker
+            {"rows": [["**a"], ["all"], ["d", "x"], ["datetime", "m"], ["2020-01-02", "1"], [bad, "2"], [],
+                      ["**b"], ["all"], ["c"], ["m"], ["2"]],
+             "cfg": {"raising": raising, "form": form}, "fault": "cell"}
+            for bad in ("2020-01-01T00:00:00+01:00", "0001-01-01", "2020-01-02 00:00:00.000000001")
+            for raising in (True, False) for form in ("pdtable", "jsondata")
         ]
 
     def generate(self, rng, tier):
